@@ -9,6 +9,7 @@ import (
 	"strconv"
 	"strings"
 	"sync"
+	"sync/atomic"
 	"time"
 )
 
@@ -20,6 +21,7 @@ type round struct {
 }
 
 type script struct {
+	conns  int32 // connections that asked for this script
 	mu     sync.Mutex
 	rounds []round
 	served int
@@ -120,6 +122,7 @@ func (p *rawPeer) serve(c net.Conn) {
 		tc.SetNoDelay(true)
 	}
 	br := bufio.NewReader(c)
+	counted := false
 	for {
 		c.SetReadDeadline(time.Now().Add(20 * time.Second))
 		path, ok := readRequest(br)
@@ -138,6 +141,10 @@ func (p *rawPeer) serve(c net.Conn) {
 		if !found {
 			c.Write([]byte("HTTP/1.1 404 Not Found\r\nContent-Length: 0\r\nConnection: close\r\n\r\n"))
 			return
+		}
+		if !counted {
+			counted = true
+			atomic.AddInt32(&v.(*script).conns, 1)
 		}
 		rd := v.(*script).next()
 		c.SetWriteDeadline(time.Now().Add(20 * time.Second))
